@@ -31,7 +31,10 @@ C_FUNCS = [
 ]
 UNVERIFIED = ["python/_tskitmodule.c (CPython API)", "tsk_ibd_finder_add_sample_ancestry (assumed contract)",
               "ancestor_mapper_add_ancestry (assumed contract)", "allocation-failure paths beyond NULL checks"]
+LEMMAS = ["lemmas.induction:psum_monotone"]
 ASSUMPTIONS = [
+    "monotonicity of psum is stated as an axiom in preconditions and proved from the recurrence by induction in "
+    "lemmas/induction.py (induction principle over the naturals trusted)",
     "prefix sums of sample_set_sizes are given by a ghost function psum with psum(num_sets) <= length of the "
     "sample_sets array (the extension passes arrays of exactly that length)",
 ]
